@@ -205,6 +205,7 @@ def run(R, tier, configs=("dflt",)):
     R.check(good and table == {b"ON": True, b"OFF": False, None: "Err(IllegalParameterValue)"}, "R08.4", "bool:character", "ON -> true, OFF -> false (ASCII case-insensitive), other character data -> -224", "boolean keyword table is %s" % table, where=b.span)
     res = eng2.run(b, [M.token(eng2, "DecimalNumericProgramData")])
     good = bool(res)
+    delegates = set()
     for r in res:
         conv = [e for e in r.trace if e.kind == "call" and e.name.endswith("TryFrom::try_from")]
         if len(conv) != 1:
@@ -212,6 +213,7 @@ def run(R, tier, configs=("dflt",)):
             continue
         st_ = (conv[0].extra or {}).get("self_ty") or ""
         g = (conv[0].extra or {}).get("gargs") or ()
+        delegates |= {x for x in ([st_] + list(g[:1])) if x in C.INTS}
         if not (st_ in C.INTS or (g and g[0] in C.INTS)) or "DecimalNumericProgramData" not in repr(conv[0].args[0]):
             good = False
         v = ok_value(r)
@@ -223,5 +225,14 @@ def run(R, tier, configs=("dflt",)):
         elif not M.outcome(r).startswith("Err("):
             good = False
     R.check(good, "R08.4", "bool:numeric", "numeric -> (integer conversion, i.e. rounded) != 0; its error is propagated", "a numeric boolean must be the rounded integer conversion compared with 0: %s" % [D.PathInfo(r).describe() for r in res], where=b.span)
+    # "rounded" is a statement about the integer conversion the boolean one hands the number to: every NR1/NR2/NR3 form
+    # must reach its rounding fallback. That conversion's own rules (C07: float fallback shape, endpoints, error map)
+    # are evaluated for the delegate type here, so that a change to the shared integer macro that changes what a
+    # boolean accepts is reported under this property too.
+    if len(delegates) == 1:
+        from . import c07
+        c07.run(c07.Renamed(R, "R08.4", "bool:delegate:"), tier, only=delegates)
+    else:
+        R.violation("R08.4", "bool:delegate", "the boolean conversion does not hand numbers to exactly one integer conversion: %s" % sorted(delegates))
     casts = [st["rv"]["kind"] for m in b.all_mirs() for bi in m.live_blocks() for st in m.blocks[bi]["stmts"] if st["k"] == "assign" and st["rv"]["k"] == "cast" and st["rv"]["kind"] in ("FloatToInt", "FloatToFloat", "IntToInt")]
     R.check(not casts, "R08.4", "bool:no-cast", "no truncating cast in the boolean conversion", "boolean conversion contains a %s cast (truncation instead of rounding)" % casts[:1], where=b.span)
